@@ -65,7 +65,7 @@ CHECKS = {
              "scenarios. Each is materialised on both backends; the real Zip, Unzip (with and without limits), NewZipFileSystem and NewTarFileSystem run on it and the dumps (path, kind, size, "
              "hash, mtime), the returned lists and the handle balance are judged by TLC (ArchiveTrace.tla), as are seeded larger trees. ClosableFs.tla is the open/closed state machine of the "
              "views; TLC emits every program of <= 4 steps over {read, mutate, close}; each step is expanded to every concrete FS method of its class on both views and ClosableTrace.tla "
-             "re-runs the state machine over the recorded results.",
+             "re-runs the state machine over the recorded results. Growth: Resource.tla (close-once wrapper) replayed and re-judged by ResourceTrace.tla (observations only).",
         note="Trusted: TLC, archive/tar (the tar archives are written by the harness), the harness's own directory dump.",
         technique="TLA+ round-trip and closable-view specifications + TLC scenario / program enumeration; replay on real archives and views; TLC trace judgement"),
     "C08": dict(
